@@ -21,13 +21,29 @@ thread_local! {
     static YIELD_REQUESTED: Cell<bool> = const { Cell::new(false) };
     static YIELD_COUNT: Cell<u64> = const { Cell::new(0) };
     static REWOUND_CHARS: Cell<u64> = const { Cell::new(0) };
+    static REWIND_BUDGET: Cell<u64> = const { Cell::new(u64::MAX) };
+}
+
+/// Sets the number of characters lexers on this thread may move back over
+/// before [`count_rewound_chars`] panics (default: no limit). A harness uses
+/// this to abort a parse whose re-reading grows out of proportion to its
+/// input, instead of waiting for it.
+pub fn set_rewind_budget(budget: u64) {
+    REWIND_BUDGET.with(|b| b.set(budget));
 }
 
 /// Records that a lexer moved its position back by `count` characters, which
 /// it will read again. (Called by yash-syntax when its `verif-hooks` feature is
 /// enabled.) The total is a deterministic measure of re-parsing work.
 pub fn count_rewound_chars(count: usize) {
-    REWOUND_CHARS.with(|c| c.set(c.get().saturating_add(count as u64)));
+    let total = REWOUND_CHARS.with(|c| {
+        c.set(c.get().saturating_add(count as u64));
+        c.get()
+    });
+    if total > REWIND_BUDGET.with(Cell::get) {
+        REWIND_BUDGET.with(|b| b.set(u64::MAX));
+        panic!("verif-hooks: rewind budget exceeded ({total} characters)");
+    }
 }
 
 /// Returns the number of characters lexers on this thread have moved back
